@@ -10,8 +10,8 @@ impl LocalName {
 pub struct Namespace(pub u64);
 #[derive(PartialEq, Eq, Clone, Copy, Structural)]
 pub struct ExpandedName { pub ns: Namespace, pub local: LocalName }
-#[derive(PartialEq, Eq, Structural)]
-pub struct Handle { pub id: u64 }
+/// a node handle: an identity (ghost; handles are compared by the sink's same_node only)
+pub struct Handle { pub id: Ghost<nat> }
 impl Handle {
     pub fn clone(&self) -> (r: Handle) ensures r == *self { Handle { id: self.id } }
 }
@@ -19,12 +19,7 @@ pub struct StrTendril { pub x: u64 }
 pub struct Attribute { pub x: u64 }
 #[verifier::external_body]
 pub fn attrs_clone(a: &Vec<Attribute>) -> (r: Vec<Attribute>) ensures r@ == a@ { unimplemented!() }
-/// model of tokenizer::Tag (identity, name and attributes are what these algorithms pass on)
-pub struct Tag { pub id: u64, pub name: LocalName, pub attrs: Vec<Attribute>, pub had_duplicate_attributes: bool }
-impl Tag {
-    #[verifier::external_body]
-    pub fn clone(&self) -> (r: Tag) ensures r == *self { unimplemented!() }
-}
+// (tokenizer::Tag and TagKind are the repository's, extracted in the unit; Tag::clone is a derive: ASSUMED to copy)
 pub struct QuirksMode { pub x: u8 }
 pub struct TreeBuilderOpts { pub exact_errors: bool, pub scripting_enabled: bool, pub iframe_srcdoc: bool, pub drop_doctype: bool }
 pub struct Cow { pub x: u8 }
@@ -33,6 +28,23 @@ impl Cow {
     pub fn msg() -> Cow { unimplemented!() }
 }
 pub enum PushFlag { Push, NoPush }
+pub struct QualName { pub prefix: Option<u64>, pub ns: Namespace, pub local: LocalName }
+impl QualName {
+    pub fn new(prefix: Option<u64>, ns: Namespace, local: LocalName) -> (r: QualName) ensures r == (QualName { prefix, ns, local }) { QualName { prefix, ns, local } }
+}
+pub enum NodeOrText { AppendNode(Handle), AppendText(StrTendril) }
+pub use NodeOrText::{AppendNode, AppendText};
+/// what the sink is asked to do to the DOM, in order (ASSUMED contract-abiding sink: a log)
+pub enum DomOp {
+    Create(Handle, ExpandedName, Seq<Attribute>, bool),
+    RemoveFromParent(Handle),
+    Append(Handle, NodeOrText),
+    AppendBeforeSibling(Handle, NodeOrText),
+    AppendBasedOnParent(Handle, Handle, NodeOrText),
+    ReparentChildren(Handle, Handle),
+}
+/// the handle the sink hands out for the k-th element it creates (ASSUMED: a new one each time)
+pub open spec fn fresh_handle(k: nat) -> Handle { Handle { id: Ghost(k) } }
 /// the name of an element as the sink reports it (ASSUMED: a function of the handle)
 pub uninterp spec fn elem_name_of(h: Handle) -> ExpandedName;
 pub struct ElemName { pub n: ExpandedName }
@@ -46,7 +58,7 @@ pub uninterp spec fn template_contents_of(h: Handle) -> Handle;
 pub enum ProcessResult { Done, Other }
 /// the sink (ASSUMED contract-abiding): names are a function of the handle, same_node is handle identity, pop() and
 /// parse_error() are notifications (logged), created elements are logged with the name and tag they were created for
-pub struct Sink { pub pops: Ghost<Seq<Handle>>, pub errs: Ghost<nat> }
+pub struct Sink { pub pops: Ghost<Seq<Handle>>, pub errs: Ghost<nat>, pub dom: Ghost<Seq<DomOp>>, pub created: Ghost<nat> }
 impl Sink {
     #[verifier::external_body]
     pub fn elem_name(&self, h: &Handle) -> (r: ElemName) ensures r.n == elem_name_of(*h) { unimplemented!() }
@@ -55,10 +67,30 @@ impl Sink {
     #[verifier::external_body]
     pub fn same_node(&self, a: &Handle, b: &Handle) -> (r: bool) ensures r == (*a == *b) { unimplemented!() }
     #[verifier::external_body]
-    pub fn pop(&mut self, h: &Handle) ensures final(self).pops@ == old(self).pops@.push(*h), final(self).errs == old(self).errs { unimplemented!() }
+    pub fn pop(&mut self, h: &Handle) ensures *final(self) == (Sink { pops: Ghost(old(self).pops@.push(*h)), ..*old(self) }) { unimplemented!() }
     #[verifier::external_body]
-    pub fn parse_error(&mut self, msg: Cow) ensures final(self).pops == old(self).pops, final(self).errs@ == old(self).errs@ + 1 { unimplemented!() }
+    pub fn parse_error(&mut self, msg: Cow) ensures *final(self) == (Sink { errs: Ghost(old(self).errs@ + 1), ..*old(self) }) { unimplemented!() }
+    #[verifier::external_body]
+    pub fn remove_from_parent(&mut self, target: &Handle) ensures *final(self) == (Sink { dom: Ghost(old(self).dom@.push(DomOp::RemoveFromParent(*target))), ..*old(self) }) { unimplemented!() }
+    #[verifier::external_body]
+    pub fn append(&mut self, parent: &Handle, child: NodeOrText) ensures *final(self) == (Sink { dom: Ghost(old(self).dom@.push(DomOp::Append(*parent, child))), ..*old(self) }) { unimplemented!() }
+    #[verifier::external_body]
+    pub fn append_before_sibling(&mut self, sibling: &Handle, child: NodeOrText) ensures *final(self) == (Sink { dom: Ghost(old(self).dom@.push(DomOp::AppendBeforeSibling(*sibling, child))), ..*old(self) }) { unimplemented!() }
+    #[verifier::external_body]
+    pub fn append_based_on_parent_node(&mut self, element: &Handle, prev_element: &Handle, child: NodeOrText)
+        ensures *final(self) == (Sink { dom: Ghost(old(self).dom@.push(DomOp::AppendBasedOnParent(*element, *prev_element, child))), ..*old(self) }) { unimplemented!() }
+    #[verifier::external_body]
+    pub fn reparent_children(&mut self, node: &Handle, new_parent: &Handle) ensures *final(self) == (Sink { dom: Ghost(old(self).dom@.push(DomOp::ReparentChildren(*node, *new_parent))), ..*old(self) }) { unimplemented!() }
 }
+
+/// markup5ever::interface::create_element_with_flags (ASSUMED): asks the sink for a new element with this name / these attributes
+#[verifier::external_body]
+pub fn create_element_with_flags(sink: &mut Sink, name: QualName, attrs: Vec<Attribute>, had_duplicate_attributes: bool) -> (r: Handle)
+    ensures
+        r == fresh_handle(old(sink).created@), elem_name_of(r) == (ExpandedName { ns: name.ns, local: name.local }),
+        *final(sink) == (Sink { created: Ghost(old(sink).created@ + 1),
+                                dom: Ghost(old(sink).dom@.push(DomOp::Create(r, ExpandedName { ns: name.ns, local: name.local }, attrs@, had_duplicate_attributes))), ..*old(sink) }),
+{ unimplemented!() }
 
 // ---- model helpers for iterator adaptors (rule R37; ASSUMED to be what the adaptor chains compute) ----
 /// every answer the closure can give for an entry is the value of the spec function t
@@ -85,11 +117,33 @@ pub fn vec_rposition<T, F: Fn(&T) -> bool>(v: &Vec<T>, f: F) -> (r: Option<usize
     ensures forall|t: spec_fn(T) -> bool| ref_agrees(f, t) ==> r == #[trigger] seq_rposition(v@, t, v@.len() as int),
 { unimplemented!() }
 
+/// `v.iter().position(f)`: the first index whose entry satisfies f
+pub open spec fn seq_position<T>(s: Seq<T>, t: spec_fn(T) -> bool, from: int) -> Option<usize>
+    decreases s.len() - from
+{
+    if from < 0 || from >= s.len() { None } else if t(s[from]) { Some(from as usize) } else { seq_position(s, t, from + 1) }
+}
+#[verifier::external_body]
+pub fn vec_position<T, F: Fn(&T) -> bool>(v: &Vec<T>, f: F) -> (r: Option<usize>)
+    requires forall|i: int| 0 <= i < v@.len() ==> f.requires((&#[trigger] v@[i],)),
+    ensures forall|t: spec_fn(T) -> bool| ref_agrees(f, t) ==> r == #[trigger] seq_position(v@, t, 0),
+{ unimplemented!() }
+/// `v.iter().enumerate().skip(k).find(|&(_, x)| f(x)).map(|(i, h)| (i, h.clone()))`: the first index >= k whose entry satisfies f, with the entry
+#[verifier::external_body]
+pub fn vec_find_from<F: Fn(&Handle) -> bool>(v: &Vec<Handle>, k: usize, f: F) -> (r: Option<(usize, Handle)>)
+    requires forall|i: int| 0 <= i < v@.len() ==> f.requires((&#[trigger] v@[i],)),
+    ensures forall|t: spec_fn(Handle) -> bool| ref_agrees(f, t) ==> #[trigger] seq_position(v@, t, k as int) == (match r { Some(p) => Some(p.0), None => None::<usize> })
+                && (r is Some ==> r.unwrap().0 < v@.len() && r.unwrap().1 == v@[r.unwrap().0 as int]),
+{ unimplemented!() }
+
 // ---- tag sets (tag_sets.rs; their content is checked against the standard by U-tagsets): used here as given functions ----
 pub uninterp spec fn ts_cursory_implied_end(p: ExpandedName) -> bool;
 pub uninterp spec fn ts_button_scope(p: ExpandedName) -> bool;
 pub uninterp spec fn ts_td_th(p: ExpandedName) -> bool;
 pub uninterp spec fn ts_special_tag(p: ExpandedName) -> bool;
+pub uninterp spec fn ts_default_scope(p: ExpandedName) -> bool;
+#[verifier::external_body]
+pub fn default_scope(p: ExpandedName) -> (r: bool) ensures r == ts_default_scope(p) { unimplemented!() }
 #[verifier::external_body]
 pub fn special_tag(p: ExpandedName) -> (r: bool) ensures r == ts_special_tag(p) { unimplemented!() }
 #[verifier::external_body]
